@@ -216,6 +216,48 @@ def characters(check, tier):
     s.done()
 
 
+def fresh_process_failures():
+    """(runs in a brand-new interpreter) FIRST every other public read-only operation on one-character values of each width class - among
+    them the ones that measure a prefix of length 0 (width_at_offset(0), empty column ranges) -, THEN a sample of wraps judged by the
+    statement: whatever the earlier operations leave behind in the process, wrapping is what it is.  -> [[layout, cols, detail], ...]"""
+    for ch in (N, W, Z, "\u4e2d", "\U0001F600", "\u3000"):
+        for f in (fmtstr(ch), FmtStr(Chunk(ch, A1))):
+            for use in (lambda: f.width_at_offset(0), lambda: f.width_at_offset(1), lambda: f.width_aware_slice(slice(0, 0)), lambda: f.width_aware_slice(0),
+                        lambda: f.width, lambda: f[0:0], lambda: len(f), lambda: str(f), lambda: f.ljust(0), lambda: f.splice("", 0)):
+                try:
+                    use()
+                except Exception:      # noqa: BLE001
+                    pass
+    out = []
+    for st in ("aa" + W + "b", W + W + "a", "a" + Z + W + W, W, "ab" + W + "cd" + W, N + W + Z + W + N):
+        for lay in layouts(st):
+            if lay[0] not in ("1", "3") or (lay[0] == "3" and (lay[2] + lay[3]) % 2):
+                continue
+            for cols in (2, 3):
+                d = case(lay, cols)
+                if d:
+                    out.append([list(lay), cols, d[:300]])
+                    if len(out) >= 4:
+                        return out
+    return out
+
+
+def fresh_process(check, tier):
+    from bounded.common import run_in_environment
+    s = Suite(check, "C11.fresh_process", "in a brand-new interpreter: width_at_offset(0), empty column ranges and the other read-only operations on one-character "
+              "values of every width class first, then a sample of wraps (6 texts x run layouts x columns 2, 3) judged by the statement",
+              bound="one child interpreter", exhaustive=False)
+    ran, res = run_in_environment("props.C11", "fresh_process_failures", {})
+    for k in range(6):
+        s.case(("fresh", k))
+    if not ran:
+        check.note(f"C11.fresh_process: the child did not run: {res}")
+    else:
+        for lay, cols, d in res:
+            s.fail("C11.width_aware_splitlines.fresh_process", dict(layout=lay, cols=cols), d)
+    s.done()
+
+
 def long_inputs(check, tier):
     from bounded.common import long_values
     s = Suite(check, "C11.long", "values with thousands of runs / characters wrapped at 2, 3 and 80 columns: the statement's oracle", bound="<= 6000 characters")
@@ -242,5 +284,6 @@ def run(check, tier, seed):
     for c in SP.GENERATOR_CONTRACTS:
         verify(c, tier, check)
     bounded(check, tier)
+    fresh_process(check, tier)
     characters(check, tier)
     derived(check, tier, seed)
